@@ -24,8 +24,8 @@ TRUSTED = ['tools/skeleton_ir.py (the slicer and its whitelist of untracked stat
 ASSUMPTIONS = ['the application calls the operations of one stream sequentially (a call that blocks forever '
                'ends the history); listeners do not raise']
 
-CLIENT_ALPHA = ['sr.0', 'sr.1', 'sm.0', 'sm.1', 'en', 'ri', 'rm', 'rt', 'ca', 'P']
-SERVER_ALPHA = ['rm', 'si', 'sm', 'st.1', 'st.0', 'ca', 'P']
+CLIENT_ALPHA = ['sr.0', 'sr.1', 'sm.0', 'sm.1', 'en', 'ri', 'rm', 'rt', 'ca', 'P', 'sm!.0']
+SERVER_ALPHA = ['rm', 'si', 'sm', 'st.1', 'st.0', 'ca', 'P', 'si!', 'st!.1', 'st!.0', 'sm!']
 HCODE = {':method': 'm', ':scheme': 's', ':path': 'p', ':authority': 'a', 'grpc-timeout': 't', 'te': 'e',
          'content-type': 'c', 'user-agent': 'u', ':status': 'S', 'grpc-status': 'g', 'grpc-message': 'M',
          'grpc-status-details-bin': 'd'}
@@ -132,7 +132,15 @@ def run_client(card, peer_mode, hist):
     steps = []
     with vloop.session() as loop:
         ce = wire.ClientEnd(loop, tap=True)
-        stream = ce.channel.request('/v.S/M', CARDS[card], bytes, bytes)
+        box = {'raise': False}
+        from grpclib.events import listen, SendMessage
+
+        async def on_send_message(event):
+            if box['raise']:
+                raise RuntimeError('listener failure')
+        listen(ce.channel, SendMessage, on_send_message)
+        md = {'Bad Key': 'x'} if peer_mode == 'badmd' else None
+        stream = ce.channel.request('/v.S/M', CARDS[card], bytes, bytes, metadata=md)
         loop.run_until_complete_quiet = None
         state = {'answered': False}
 
@@ -173,6 +181,8 @@ def run_client(card, peer_mode, hist):
                 continue
             op, _, arg = c.partition('.')
             end = arg == '1'
+            box['raise'] = op.endswith('!')        # a SendMessage listener raises during this call
+            op = op.rstrip('!')
             coro = {'sr': lambda: stream.send_request(end=end),
                     'sm': lambda: stream.send_message(b'm', end=end),
                     'en': stream.end, 'ri': stream.recv_initial_metadata, 'rm': stream.recv_message,
@@ -218,18 +228,22 @@ def run_server(card, hist, client_ended):
                     continue
                 op, _, arg = c.partition('.')
                 ok = arg != '0'
+                bad = op.endswith('!')          # invalid user metadata / a raising listener
+                op = op.rstrip('!')
+                badmd = {'Bad Key': 'x'} if bad else None
+                box['raise'] = bad
                 try:
                     box['cur'] = (c, start)
                     if op == 'rm':
                         await stream.recv_message()
                     elif op == 'si':
-                        await stream.send_initial_metadata()
+                        await stream.send_initial_metadata(metadata=badmd)
                     elif op == 'sm':
                         await stream.send_message(b'r')
                     elif op == 'st':
                         await stream.send_trailing_metadata(
                             status=Status.OK if ok else Status.NOT_FOUND,
-                            status_message=None if ok else 'nf')
+                            status_message=None if ok else 'nf', metadata=badmd)
                     elif op == 'ca':
                         await stream.cancel()
                     exc = None
@@ -248,6 +262,13 @@ def run_server(card, hist, client_ended):
 
         se = wire.ServerEnd(loop, [Service('v.S', {'M': (handler, card)})], tap=True)
         box['se'] = se
+        box['raise'] = False
+        from grpclib.events import listen, SendMessage
+
+        async def on_send_message(event):
+            if box['raise']:
+                raise RuntimeError('listener failure')
+        listen(se.server, SendMessage, on_send_message)
         loop.run_quiet(1)
         sid = se.peer.next_stream_id()
         box['sid'] = sid
@@ -328,21 +349,23 @@ def run(ctx):
     for c in ctx.corpus():
         check_history(ctx, res, c['side'], c['card'], c['mode'], c['hist'], batch)
     depth = 3 if ctx.tier == 'thorough' else 2
-    cmodes = ['silent', 'full', 'early', 'err', 'badct']
+    cmodes = ['silent', 'full', 'early', 'err', 'badct', 'badmd']
     smodes = ['open', 'ended']
     n_exh = 0
+    calpha = CLIENT_ALPHA if ctx.tier == 'thorough' else [a for a in CLIENT_ALPHA if '!' not in a]
+    salpha = SERVER_ALPHA if ctx.tier == 'thorough' else [a for a in SERVER_ALPHA if '!' not in a]
     for card in CARDS:
-        for hist in itertools.product(CLIENT_ALPHA, repeat=depth):
-            for mode in (cmodes if ctx.tier == 'thorough' else ['full']):
+        for hist in itertools.product(calpha, repeat=depth):
+            for mode in (cmodes if ctx.tier == 'thorough' else ['full', 'badmd']):
                 check_history(ctx, res, 'c', card, mode, hist, batch)
                 n_exh += 1
-        for hist in itertools.product(SERVER_ALPHA, repeat=depth + 1):
+        for hist in itertools.product(salpha, repeat=depth + 1):
             for mode in smodes:
                 check_history(ctx, res, 's', card, mode, hist, batch)
                 n_exh += 1
     res.extra['exhaustive_histories'] = n_exh
     res.extra['exhaustive_depth'] = {'client': depth, 'server': depth + 1}
-    for _ in range(ctx.n(600, 20000)):
+    for _ in range(ctx.n(1500, 20000)):
         side = rng.choice('cs')
         card = rng.choice(list(CARDS))
         if side == 'c':
